@@ -39,6 +39,9 @@ def configs(tier, seed):
     cfgs.append(dict(name='%s/writer' % st, strategy=st, mode='writer', max='inf'))
     # the reactor thread's other dealings with the cache: the instrumentation tick reads the size and stores self-metrics
     cfgs.append(dict(name='%s/ticks' % st, strategy=st, mode='ticks', max='inf'))
+    # daemon start-up: the pipeline's write processor is built (as service.setupPipeline does), then the receiving thread's
+    # first datapoint and the writer thread's first pass meet - both must end up talking to the same cache
+    cfgs.append(dict(name='%s/startup' % st, strategy=st, mode='startup', max='inf'))
     # long histories (hundreds of operations, dozens of drains) under a handful of schedules
     cfgs.append(dict(name='%s/long' % st, strategy=st, mode='long', max='inf' if STRATEGIES.index(st) % 2 else 40))
   return cfgs
@@ -62,6 +65,57 @@ def gen_writer_workload(r):
   ops.append(('sleep', 2.5))
   ops.append(('stop',))
   return ops
+
+
+def run_startup(cfg, res, ns):
+  import carbon.cache as cc
+  import carbon.writer as writer
+  from carbon import state, events, pipeline
+  from carbon.pipeline import Processor
+  from vlib import sched as S, memdb
+  if pipeline.run_pipeline not in events.metricReceived.handlers:
+    events.metricReceived.addHandler(pipeline.run_pipeline)
+  r = gen.rng(cfg['seed'], 'C02s', cfg['name'])
+
+  def hot(fr):       # switches only where the cache singleton is looked up or created (no lock is held there)
+    return fr.f_code.co_filename.endswith('cache.py') and fr.f_code.co_name in ('MetricCache', 'cache', '__init__', 'process')
+  for trial in range(40 if cfg['tier'] == 'quick' else 400):
+    cc._Cache = None
+    memdb.reset()
+    state.database.files.clear()
+    state.pipeline_processors = [Processor.plugins['write']()]       # what service.setupPipeline(['write']) does at start-up
+    stored = []
+    n = r.randint(1, 4)
+
+    def recv():
+      for k in range(n):
+        v = float(1000 * trial + k + 1)
+        events.metricReceived('s%d' % (k % 2), (1000 + k, v))
+        stored.append(v)
+
+    def wr():
+      writer.writeCachedDataPoints()
+    sc = S.Scheduler(S.TargetedPolicy(gen.rng(r.random(), 'tp'), hot, p_hot=0.5, p_cold=0.0, q=0.5), trace_files=('cache.py',), step_cap=20000)
+    order = [('recv', recv), ('writer', wr)]
+    if trial % 2:
+      order.reverse()
+    for name, fn in order:
+      sc.spawn(name, fn)
+    err = sc.run(30)
+    res.count('schedules_executed')
+    res.count('startup_races')
+    if err is not None:
+      res.inconc('%s: %s' % (type(err).__name__, err))
+      return
+    writer.writeCachedDataPoints()                  # a later pass of the writer drains whatever the daemon's cache holds
+    written = set(p[1] for e in memdb.CALL_LOG if e['op'] == 'write' and e['outcome'] == 'ok' for p in e['args'])
+    left = set(v for pts in cc.MetricCache().values() for v in pts.values())
+    missing = sorted(set(stored) - written - left)
+    res.case((trial, sc.trace_hash), nontrivial=sc.switches >= 1)
+    if missing:
+      res.violation(cfg['strategy'] + '/startup/lost', 'datapoints %r received right after start-up are neither written nor in the daemon\'s cache (the receiving '
+                    'side and the writer do not share one cache?) [%d switches]' % (missing, sc.switches), dict(trial=trial))
+      return
 
 
 def run_writer_config(cfg, res, world):
@@ -228,6 +282,8 @@ def run_config(cfg, res):
                                   'MIN_TIMESTAMP_LAG': cfg.get('lag', 0), 'MIN_TIMESTAMP_RESOLUTION': cfg.get('res', 0)})
   if cfg.get('mode') == 'writer':
     return run_writer_config(cfg, res, cachesim.World(ns, trace_files=('cache.py', 'events.py', 'writer.py')))
+  if cfg.get('mode') == 'startup':
+    return run_startup(cfg, res, ns)
   if cfg.get('mode') == 'long':
     from vlib import sched as S
     world = cachesim.World(ns)
